@@ -124,11 +124,18 @@ def check_cuts(rep, tier, rng, drv, run, tmp):
                 ip = tmp / f"img{len(files)}.bin"
                 ip.write_bytes(b"PAR1" + bytes(size - 12) + _st.pack("<I", ln) + b"PAR1")
                 files.append((f"image:{size}:{ln}", ip, ip.read_bytes()))
+        # images without the leading magic: the rejection branch of the mapped paths that no prefix of a written file
+        # can reach (the stdio path does not look at the leading magic - a C03 matter - so only the model tie applies)
+        for size in (12, 16, 40):
+            for lead in (b"PAR0", b"\x00AR1", b"par1"):
+                ip = tmp / f"img{len(files)}.bin"
+                ip.write_bytes(lead + bytes(size - 12) + _st.pack("<I", 0) + b"PAR1")
+                files.append((f"leadimg:{size}:{lead.hex()}", ip, ip.read_bytes()))
     chunk = 200 if tier == "quick" else 400
     cases = []
     for fi, (s, p, data) in enumerate(files):
         n = len(data)
-        if s.startswith("image:"):
+        if s.startswith("image:") or s.startswith("leadimg:"):
             cases.append((fi, n, n + 1))
             continue
         for a in range(0, n + 1, chunk):
@@ -202,6 +209,10 @@ def check_cuts(rep, tier, rng, drv, run, tmp):
                 if code == 0 or (mi > 0 and code != codes[0]):
                     rep.violation(f"an image with valid magics but no usable footer ({spec}) is not rejected alike: "
                                   f"fread/mmap/buffer = {codes}", {"op": "cut", "spec": spec, "cut": cut, "mode": mi, "file_hex": prefix.hex()})
+            elif spec.startswith("leadimg:"):
+                if mi > 0 and code == 0:
+                    rep.violation(f"an image without the leading magic ({spec}) is opened by the {modes[mi]} path",
+                                  {"op": "cut", "spec": spec, "cut": cut, "mode": mi, "file_hex": prefix.hex()})
             elif code != 0 and cut == n:
                 rep.tie_broken(f"the complete file of spec {spec} is rejected by the {modes[mi]} path with {code}", spec)
             # --- the model's prediction
@@ -400,6 +411,14 @@ def check_sinks(rep, tier, rng, drv, run, tmp):
     if cases:
         rep.sample({"op": "sink", "case": lines[0]})
         rep.sample({"op": "sink", "case": lines[-1]})
+    # --- writer entry states the histories do not reach
+    wout, wprobs = run_sharded(drv, [f"wmisc {tmp}/wmisc.parquet"])
+    rep.count("wmisc")
+    for pr in wprobs:
+        rep.violation(f"driver died in the writer entry-state case (rc={pr[1]}): {pr[2][-300:]}", {"op": "wmisc", "case": pr[3]})
+    if wout and not wout[0].startswith("OK"):
+        rep.violation(f"writer entry states (unopenable path / options == NULL / column index out of range): {wout[0][:200]}",
+                      {"op": "wmisc", "case": f"wmisc {tmp}/wmisc.parquet"})
     # --- abort at every point
     acases = []
     for s in specs:
@@ -474,6 +493,10 @@ def replay(path):
             print(json.dumps(j, indent=1)[:3000])
             return 1
         toks = case.split()
+        if toks[0] == "wmisc":
+            out, rc, err = vlib.run_lines(drv, [f"wmisc {tmp}/r.parquet"])
+            print("implementation:", out)
+            return 0 if out and out[0].startswith("OK") else 1
         if toks[0] in ("sink", "abort"):
             toks[-2 if toks[0] == "sink" else -1] = str(tmp / "r")
         out, rc, err = vlib.run_lines(drv, [" ".join(toks)])
